@@ -1,6 +1,6 @@
 (** C16 — read sets and pattern matching are semantically exact.  Property theorems only. *)
 From Coq Require Import ZArith List Bool String.
-From Mx Require Import Expr ExprProofs.
+From Mx Require Import Expr ExprProofs MatchProofs.
 Import ListNotations.
 Open Scope Z_scope.
 
@@ -26,3 +26,12 @@ Example C16_nonvacuous :
   get_r true (EOp "+" [EMem (EId "eax" 32 true false) 32 None; EId "ebx" 32 true false])
   = [EId "eax" 32 true false; EMem (EId "eax" 32 true false) 32 None; EId "ebx" 32 true false].
 Proof. vm_compute. reflexivity. Qed.
+
+(** MatchExpr is sound: whenever it does not return False, the dictionary it returns keeps every earlier binding (up to ==) and
+    the matched expression is the pattern with each wildcard replaced by the expression bound to it — constructor by constructor,
+    leaves up to == — for ALL expressions, patterns, wildcard lists and initial dictionaries, through the three return conventions
+    (False / True / the dictionary, an empty dictionary counting as failure inside conditionals and concatenations). *)
+Theorem C16_match_sound : forall tks e m res r res', match_expr tks e m res = (r, res') -> r <> RFalse ->
+  extends res res' /\ inst tks res' m e.
+Proof. exact match_sound. Qed.
+Print Assumptions C16_match_sound.
